@@ -15,10 +15,18 @@ from . import common, strrules
 
 NAME = 'lfp'
 PROPS = ['C17']
-RLIMIT = 40
+RLIMIT = 60
 
 SPEC = r'''
 pub open spec fn is_suffix(t: Seq<char>, s: Seq<char>) -> bool { t.len() <= s.len() && t == s.skip(s.len() - t.len()) }
+proof fn lemma_sub_of_sub(whole: Seq<char>, x: Seq<char>, lo: int, hi: int)
+    requires 0 <= lo <= hi <= whole.len(), x == whole.subrange(lo, hi)
+    ensures forall|a: int, b: int| 0 <= a <= b <= x.len() ==> whole.subrange(lo + a, lo + b) == #[trigger] x.subrange(a, b)
+{
+    assert forall|a: int, b: int| 0 <= a <= b <= x.len() implies whole.subrange(lo + a, lo + b) == #[trigger] x.subrange(a, b) by {
+        assert(whole.subrange(lo + a, lo + b) =~= x.subrange(a, b));
+    }
+}
 // R36: Chars::next through a wrapper: vstd's contract plus an abstract measure that decreases on Some
 pub uninterp spec fn chars_len<'a>(c: core::str::Chars<'a>) -> nat;
 #[verifier::external_body]
@@ -133,9 +141,7 @@ def build(repo):
     u.after(LN, r'(?<!mut )attr_keys\s*=\s*[^;]*;', '''        let ghost t2 = attr_keys@.len() as int;
         proof {
             assert(attr_keys@ =~= whole.subrange(k2, k2 + t2));
-            assert forall|a: int, b: int| 0 <= a <= b <= t2 implies whole.subrange(k2 + a, k2 + b) == #[trigger] attr_keys@.subrange(a, b) by {
-                assert(whole.subrange(k2 + a, k2 + b) =~= attr_keys@.subrange(a, b));
-            }
+            lemma_sub_of_sub(whole, attr_keys@, k2, k2 + t2);
         }''')
 
     # ---------------- LinkAttributeParser::next
@@ -160,23 +166,21 @@ def build(repo):
     u.after(AN, r'self\.inner = iter\.as_str\(\);', '        let ghost n = whole.len() - self.inner@.len();')
     u.after(AN, r'let attr_str = [^;]*;', '''        let ghost t = attr_str@.len() as int;
         proof { assert(attr_str@ =~= whole.subrange(0, t)); }''', nth=1, count=2)
+    u.before(AN, r'let \(key, value\) = if let', '        let ghost mut ka: int = 0; let ghost mut kb: int = 0; let ghost mut va: int = 0; let ghost mut vb: int = 0;')
     u.before(AN, r'let \(key, value\) = str_split_at', '            proof { lemma_first_index(attr_str@, \'=\'); lemma_off_unique(attr_str@, first_index(attr_str@, \'=\')); }')
     u.before(AN, r'\(key, str_from\(value, 1\)\)', '''            proof {
                 let f = first_index(attr_str@, '=');
                 assert(value@[0] == '='); axiom_boff_ascii(value@); lemma_off_unique(value@, 1);
                 assert(key@ =~= whole.subrange(0, f));
                 assert(value@.skip(1) =~= whole.subrange(f + 1, t));
+                ka = 0; kb = f; va = f + 1; vb = t;
             }''')
-    u.before(AN, r'\(attr_str, ""\)', '            proof { assert(""@ =~= whole.subrange(t, t)); }')
+    u.before(AN, r'\(attr_str, ""\)', '            proof { assert(""@ =~= whole.subrange(t, t)); ka = 0; kb = t; va = t; vb = t; }')
     u.before(AN, r'Some\(\(str_trim\(key\)', '''        proof {
-            assert(exists|ka: int, kb: int, va: int, vb: int| 0 <= ka <= kb <= va <= vb <= n && key@ == whole.subrange(ka, kb) && value@ == whole.subrange(va, vb));
-            let (ka, kb, va, vb) = choose|ka: int, kb: int, va: int, vb: int| 0 <= ka <= kb <= va <= vb <= n && key@ == whole.subrange(ka, kb) && value@ == whole.subrange(va, vb);
-            assert forall|a: int, b: int| 0 <= a <= b <= key@.len() implies whole.subrange(ka + a, ka + b) == #[trigger] key@.subrange(a, b) by {
-                assert(whole.subrange(ka + a, ka + b) =~= key@.subrange(a, b));
-            }
-            assert forall|a: int, b: int| 0 <= a <= b <= value@.len() implies whole.subrange(va + a, va + b) == #[trigger] value@.subrange(a, b) by {
-                assert(whole.subrange(va + a, va + b) =~= value@.subrange(a, b));
-            }
+            assert(0 <= ka <= kb <= va <= vb <= n);
+            assert(key@ == whole.subrange(ka, kb) && value@ == whole.subrange(va, vb));
+            lemma_sub_of_sub(whole, key@, ka, kb);
+            lemma_sub_of_sub(whole, value@, va, vb);
         }''')
     u.finish(common.HEAD)
     return u
